@@ -2217,3 +2217,33 @@ _old2_register_all = register_all
 def register_all(M):  # noqa: F811
     _old2_register_all(M)
     register_batch3(M)
+
+
+def register_batch4(M):
+    reg = M.reg
+    reg_re = M.reg_re
+    P = M.p
+
+    @reg('sysinfo::traits::SystemExt::new_all', '<sysinfo::linux::system::System as sysinfo::traits::SystemExt>::new_all')
+    def sys_new_all(I, ext, a):
+        return OpaqueObj('sysinfo')
+
+    @reg_re(r'^(<sysinfo::linux::system::System as )?sysinfo::traits::SystemExt>?::(refresh_memory|refresh_process|refresh_cpu|refresh_all)$')
+    def sys_refresh(I, ext, a):
+        return UNIT() if not ext['dname'].endswith('refresh_process') else True
+
+    @reg_re(r'^(<sysinfo::linux::system::System as )?sysinfo::traits::SystemExt>?::total_memory$')
+    def sys_total_memory(I, ext, a):
+        # assumption: the machine has 64 GiB (the harness only uses water marks far below it)
+        return 64 * 1024 * 1024 * 1024
+
+    M.drops['sysinfo::System'] = M.drops['std::string::String']
+    M.drops['sysinfo::linux::system::System'] = M.drops['std::string::String']
+
+
+_old3_register_all = register_all
+
+
+def register_all(M):  # noqa: F811
+    _old3_register_all(M)
+    register_batch4(M)
